@@ -288,6 +288,64 @@ theorem M33_arms_disagree_entry (tmin : α) (a : M33 α) (ht0 : 0 < tmin) (hd : 
   rw [Matrix.smul_apply, smul_eq_mul]
   exact this.mp h
 
+/-- the third row of the adjugate (the translation cofactors and the block determinant) does not involve the last column -/
+theorem M33_adjugate_row2_of_cols (a a' : M33 α)
+    (hc : a'.x00 = a.x00 ∧ a'.x01 = a.x01 ∧ a'.x10 = a.x10 ∧ a'.x11 = a.x11 ∧ a'.x20 = a.x20 ∧ a'.x21 = a.x21) (j : Fin 3) :
+    a'.toMat.adjugate 2 j = a.toMat.adjugate 2 j := by
+  obtain ⟨h1, h2, h3, h4, h5, h6⟩ := hc
+  fin_cases j <;> simp [Matrix.adjugate_fin_three, M33.toMat, h1, h2, h3, h4, h5, h6]
+
+/-- `M33_arms_disagree_iff` TIED TO THE EXTRACTED CODE (affine arm): for an affine matrix with `|det| < 1`, "`Gen.M33.inverse`
+returns the true inverse of an invertible matrix although the general arm's nine guards do not all pass" ⇔ the block guards
+pass and a translation cofactor fails.  (A statement of the form "`inverse a ≠ inverse a'` for a non-affine `a'` with the same
+adjugate and determinant" would be vacuous: adjugate and a non-zero determinant determine the matrix.) -/
+theorem M33_fast_path_accepts_general_refuses_iff (tmin : α) (a : M33 α) (ha : a.IsAffine) (ht0 : 0 < tmin) (ht1 : tmin < 1)
+    (hd1 : |a.toMat.det| < 1) :
+    ((Gen.M33.inverse tmin a).toMat = (a.toMat.det)⁻¹ • a.toMat.adjugate ∧ a.toMat.det ≠ 0 ∧
+        ¬ ∀ i j, |a.toMat.adjugate i j| < |a.toMat.det| / tmin) ↔
+      ((∀ i j, |a.linear.toMat.adjugate i j| < |a.toMat.det| / tmin) ∧
+        (|a.toMat.det| / tmin ≤ |a.toMat.adjugate 2 0| ∨ |a.toMat.det| / tmin ≤ |a.toMat.adjugate 2 1|)) := by
+  rw [← M33_arms_disagree_iff tmin a ha ht0 ht1]
+  constructor
+  · rintro ⟨hx, hd, hn⟩
+    refine ⟨?_, hn⟩
+    have := (M33_inverse_affine_true_iff tmin ht0 a ha hd).mp hx
+    rcases this with h | h
+    · exact absurd h (not_le.mpr hd1)
+    · rw [← M33_det_affine a ha] at h
+      have hdl : a.linear.toMat.det ≠ 0 := by rwa [← M33_det_affine a ha]
+      have := (guards_iff_inverse_entries_lt a.linear.toMat tmin ht0 hdl).mpr (by rwa [M33_det_affine a ha] at h)
+      rwa [← M33_det_affine a ha] at this
+  · rintro ⟨hb, hn⟩
+    have hd : a.toMat.det ≠ 0 := det_ne_zero_of_guard (Or.inr (hb 0 0))
+    exact ⟨M33_affine_eq_general tmin a ha (Or.inr hb), hd, hn⟩
+
+/-- THE JUMP, both arms of the extracted code in one statement: `a` affine, `a'` non-affine with the same first two columns
+(e.g. `a` with its last column perturbed: the translation cofactors `adjugate 2 j` do not involve that column).  If the block
+guards of `a` pass and a translation cofactor reaches `|det a'| / tmin` (`|det a'| < 1`), the fast path inverts `a` and the
+general arm returns the identity for `a'`. -/
+theorem M33_jump_of_translation_cofactor (tmin : α) (a a' : M33 α) (ha : a.IsAffine) (hna : ¬ a'.IsAffine)
+    (hc : a'.x00 = a.x00 ∧ a'.x01 = a.x01 ∧ a'.x10 = a.x10 ∧ a'.x11 = a.x11 ∧ a'.x20 = a.x20 ∧ a'.x21 = a.x21)
+    (hb : ∀ i j, |a.linear.toMat.adjugate i j| < |a.toMat.det| / tmin)
+    (hd' : |a'.toMat.det| < 1) (j : Fin 3) (hf : |a'.toMat.det| / tmin ≤ |a.toMat.adjugate 2 j|) :
+    (Gen.M33.inverse tmin a).toMat = (a.toMat.det)⁻¹ • a.toMat.adjugate ∧ a.toMat.det ≠ 0 ∧ (Gen.M33.inverse tmin a').toMat = 1 := by
+  refine ⟨M33_affine_eq_general tmin a ha (Or.inr hb), det_ne_zero_of_guard (Or.inr (hb 0 0)), ?_⟩
+  rw [M33_inverse_spec tmin a' hna, if_neg]
+  rintro (h | h)
+  · exact absurd h (not_le.mpr hd')
+  · have := h 2 j
+    rw [M33_adjugate_row2_of_cols a a' hc j] at this
+    exact absurd this (not_lt.mpr hf)
+
+example : (⟨1, 0, 0, 0, 1 / 2, 0, 0, 8, 1⟩ : M33 ℚ).IsAffine ∧ ¬ (⟨1, 0, 1 / 100, 0, 1 / 2, 0, 0, 8, 1⟩ : M33 ℚ).IsAffine ∧
+    |(⟨1, 0, 1 / 100, 0, 1 / 2, 0, 0, 8, 1⟩ : M33 ℚ).toMat.det| < 1 ∧
+    |(⟨1, 0, 1 / 100, 0, 1 / 2, 0, 0, 8, 1⟩ : M33 ℚ).toMat.det| / (1 / 4) ≤ |(⟨1, 0, 0, 0, 1 / 2, 0, 0, 8, 1⟩ : M33 ℚ).toMat.adjugate 2 1| := by
+  refine ⟨by simp [M33.IsAffine], by simp [M33.IsAffine], ?_, ?_⟩
+  · simp [M33.toMat, Matrix.det_fin_three]; norm_num
+  · simp [M33.toMat, Matrix.det_fin_three, Matrix.adjugate_fin_three]; norm_num
+example : Gen.M33.inverse (1 / 4 : ℚ) ⟨1, 0, 1 / 100, 0, 1 / 2, 0, 0, 8, 1⟩ = ⟨1, 0, 0, 0, 1, 0, 0, 0, 1⟩ := by
+  norm_num [Gen.M33.inverse, sabs]
+
 /-- non-affine 3×3, `|det| = 1/2 < 1`, all nine guards pass with `tmin = 2⁻¹⁰`: the guarded branch of the general arm -/
 example : ¬ (⟨1, 0, 1, 0, 1, 0, 0, 0, 1 / 2⟩ : M33 ℚ).IsAffine ∧ ¬ (1 : ℚ) ≤ |(⟨1, 0, 1, 0, 1, 0, 0, 0, 1 / 2⟩ : M33 ℚ).toMat.det| ∧
     ∀ i j, |(⟨1, 0, 1, 0, 1, 0, 0, 0, 1 / 2⟩ : M33 ℚ).toMat.adjugate i j| < |(⟨1, 0, 1, 0, 1, 0, 0, 0, 1 / 2⟩ : M33 ℚ).toMat.det| / (1 / 1024) := by
